@@ -23,11 +23,16 @@ def _mutants(pid: str):
     return list(getattr(mod, "MUTANTS", []))
 
 
+_BASE: dict = {}
+
+
 def _run_one(args):
     pid, name, rel, old, new, expect = args
     from .__main__ import run_property
 
-    base = Repo()
+    base = _BASE.get("repo")
+    if base is None:
+        base = _BASE["repo"] = Repo()
     src = base.sources.get(rel)
     if src is None or src.count(old) < 1:
         return {"name": name, "status": "skipped", "why": "snippet not present in the current tree"}
@@ -36,11 +41,15 @@ def _run_one(args):
         compile(mutated, rel, "exec")
     except SyntaxError as error:
         return {"name": name, "status": "failed", "why": f"mutant does not compile: {error}"}
-    try:
-        base_ctx = run_property(pid, "quick", 0, base)
-        base_broken = {i.key() for i in base_ctx.instances if not i.ok}
-    except AnalysisError as error:
-        return {"name": name, "status": "skipped", "why": f"base analysis error: {error}"}
+    if ("broken", pid) not in _BASE:
+        try:
+            base_ctx = run_property(pid, "quick", 0, base)
+            _BASE[("broken", pid)] = {i.key() for i in base_ctx.instances if not i.ok}
+        except AnalysisError as error:
+            _BASE[("broken", pid)] = error
+    base_broken = _BASE[("broken", pid)]
+    if isinstance(base_broken, AnalysisError):
+        return {"name": name, "status": "skipped", "why": f"base analysis error: {base_broken}"}
     try:
         ctx = run_property(pid, "quick", 0, Repo(overrides={rel: mutated}))
         broken = [i for i in ctx.instances if not i.ok and i.key() not in base_broken]
